@@ -10,6 +10,10 @@ mod ops_convert;
 mod ops_pattern;
 mod ops_version;
 mod ops_scan;
+mod ops_walk;
+mod ops_imports;
+mod ops_exports;
+mod ops_dirs;
 // MOD-MARKER (add `mod ops_<m>;` above this line)
 
 use std::cell::RefCell;
@@ -37,6 +41,10 @@ fn dispatch(st: &mut State, line: &str) -> String {
 		.or_else(|| ops_pattern::dispatch(st, fam, rest))
 		.or_else(|| ops_version::dispatch(st, fam, rest))
 		.or_else(|| ops_scan::dispatch(st, fam, rest))
+		.or_else(|| ops_walk::dispatch(st, fam, rest))
+		.or_else(|| ops_imports::dispatch(st, fam, rest))
+		.or_else(|| ops_exports::dispatch(st, fam, rest))
+		.or_else(|| ops_dirs::dispatch(st, fam, rest))
 		// DISPATCH-MARKER (add `.or_else(|| ops_<m>::dispatch(st, fam, rest))` above this line)
 		.unwrap_or_else(|| "bad-op".to_string())
 }
